@@ -79,17 +79,16 @@ Proof.
   - unfold ensureCorrectWindingOrder. destruct (windingOrderIsCorrect r0 _); auto.
 Qed.
 
-(** C05_rings_well_formed with the routing premise removed; the kmp premise stays explicit *)
+(** C05_rings_well_formed with the routing premise removed: no premise left *)
 Theorem snap_rings_well_formed_closed g P levels cfg r :
-  (forall r r', no_adj_dup r -> kmpDeduplicate r = Ok r' -> (length r' < 3)%nat -> NoDup r') ->
   0 < gres g -> RootCovers g -> (forall L, In L levels -> (L <= gdeep g)%nat) ->
   snapPolygon g P levels cfg = Ok r ->
   forall L ps poly x, In (L, ps) r -> In poly ps -> In x poly ->
     NoDup x /\ ((2 <= length x)%nat -> hd dp x <> last x dp /\ no_adj_dup x).
 Proof.
-  intros Hk Hr C HLs H L ps poly x Hin Hpoly Hx.
+  intros Hr C HLs H L ps poly x Hin Hpoly Hx.
   destruct (insertPolygon g P) as [hs | e] eqn:Hi.
-  - exact (snap_rings_well_formed g P levels cfg r hs Hk Hi (routing_premise_closed g P hs levels Hr C Hi HLs) H
+  - exact (snap_rings_well_formed g P levels cfg r hs Hi (routing_premise_closed g P hs levels Hr C Hi HLs) H
              L ps poly x Hin Hpoly Hx).
   - exfalso. unfold snapPolygon in H. rewrite Hi in H.
     destruct e; try discriminate. destruct (ignoreOutsideGrid cfg); [| discriminate].
